@@ -252,6 +252,7 @@ fn shard(ctx: &Ctx, ifaces: &[&'static IfaceDesc], shard: usize, cases: u64) -> 
             }
             acc.res.evaluations += 1;
             let got = streams(&out.log);
+            acc.res.sample(|| J::obj(vec![("iface", J::s(iface.name)), ("messages", J::strs(msgs.iter().map(|m| esc(&m.bytes)))), ("faults", J::strs(msgs.iter().map(|m| format!("{:?}", m.fault)))), ("config", cfg.clone()), ("observed", J::strs(got.show()))]));
             for s in &got.ce {
                 if let Sem::Err { num, .. } = s {
                     *acc.errors_seen.entry(*num).or_default() += 1;
@@ -398,7 +399,9 @@ pub fn run(ctx: &Ctx) -> PropResult {
     res.cov("histories_where_units_after_fault_all_ran", alla);
     res.cov("histories_where_units_after_fault_none_ran", nonea);
     res.cov("error_numbers_observed", J::Obj(errors_seen.into_iter().map(|(k, v)| (k.to_string(), J::Int(v as i64))).collect()));
-    res.samples = vec![J::s("[\"A:B 1;ZZQ;:A\\n\" (UnknownMnem@1), \"A?\\n\"] via process-byte-wise")];
+    res.samples.truncate(5);
+    let described: Vec<J> = vec![J::s("[\"A:B 1;ZZQ;:A\\n\" (UnknownMnem@1), \"A?\\n\"] via process-byte-wise")];
+    res.samples.extend(described.into_iter().take(1));
     res.assumptions = vec![
         "faulty messages contain no newline inside a payload (the property's premise)".into(),
         "responses fit the buffers (oversized responses are C05's workload)".into(),
